@@ -70,6 +70,7 @@ pub struct NetCore {
     pub windows: Vec<Window>,
     pub pkt_faults: BTreeMap<(usize, usize, u64), PktAction>,
     pub random_until: u64,
+    pub exempt_kinds: u16,
     pub counters: FaultCounters,
     pub fired: Vec<Fired>,
     pub dead: Vec<bool>,
@@ -107,6 +108,7 @@ impl NetCore {
             windows: plan.windows.clone(),
             pkt_faults: plan.pkt_faults.iter().map(|f| ((f.from, f.to, f.n), f.action.clone())).collect(),
             random_until: plan.random_faults_until_us.unwrap_or(u64::MAX),
+            exempt_kinds: plan.exempt_kinds,
             counters: FaultCounters::default(),
             fired: Vec::new(),
             dead: vec![false; n],
@@ -174,7 +176,8 @@ impl NetCore {
             }
             None => {}
         }
-        if !dropped {
+        let exempt = (self.exempt_kinds >> kind) & 1 == 1;
+        if !dropped && !exempt {
             for w in &self.windows {
                 if w.from == from && w.to == to && self.now_us >= w.start_us && self.now_us < w.end_us && (w.kinds >> kind) & 1 == 1 {
                     match w.action {
@@ -191,7 +194,7 @@ impl NetCore {
                 }
             }
         }
-        if !dropped && self.now_us < self.random_until {
+        if !dropped && !exempt && self.now_us < self.random_until {
             if spec.loss_ppm > 0 && h(self.seed, D_LOSS, &k) % 1_000_000 < spec.loss_ppm as u64 {
                 dropped = true;
                 self.counters.dropped_random += 1;
